@@ -148,6 +148,14 @@ pub fn random_message(r: &mut Rng, max_opts: usize, max_val: usize, max_pay: usi
         };
         let vl = if r.chance(1, 3) { *r.pick(&[0usize, 1, 12, 13, 14, 255, 268, 269, 270, 300]) } else { r.below(max_val as u64 + 1) as usize };
         p.add_option(CoapOption::from(num), r.bytes(vl.min(max_val.max(300))));
+        // runs of values under one number, lengths from every header class (anything the serialiser or
+        // the parser carries over from one value to the next shows only here)
+        if r.chance(1, 3) {
+            for _ in 0..r.range(1, 3) {
+                let vl = *r.pick(&[0usize, 1, 12, 13, 14, 20, 30, 255, 268, 269, 270, 300]);
+                p.add_option(CoapOption::from(num), r.bytes(vl));
+            }
+        }
     }
     let pl = if r.chance(1, 3) { 0 } else { r.below(max_pay as u64 + 1) as usize };
     p.payload = r.bytes(pl);
@@ -180,6 +188,43 @@ pub fn rec_wire_bytes(args: &Args) {
                 ev_from_bytes(&mut out, &c);
             }
         }
+    }
+    // (a2) datagrams encoded by hand (independent of the serialiser under test): runs of values under one
+    // or two option numbers, first delta and every length drawn from the header classes
+    let lens = [0usize, 1, 12, 13, 14, 20, 30, 268, 269, 270, 300, 600];
+    let deltas = [0u32, 1, 12, 13, 14, 268, 269, 270, 1000, 60000];
+    fn push_hdr(b: &mut Vec<u8>, delta: u32, len: usize) {
+        let nib = |x: u32| if x < 13 { x as u8 } else if x < 269 { 13 } else { 14 };
+        b.push(nib(delta) << 4 | nib(len as u32));
+        for x in [delta, len as u32] {
+            if (13..269).contains(&x) {
+                b.push((x - 13) as u8);
+            } else if x >= 269 {
+                b.extend(((x - 269) as u16).to_be_bytes());
+            }
+        }
+    }
+    for _ in 0..(if thorough { 3000 } else { 300 }) {
+        let mut b = r.pick(&HEADERS[..4]).to_vec();
+        let mut total: u32 = 0;
+        for g in 0..r.range(1, 2) {
+            let d = if g == 0 { *r.pick(&deltas) } else { *r.pick(&deltas[1..9]) };
+            if total + d > 65535 {
+                break;
+            }
+            total += d;
+            for k in 0..r.range(1, 5) {
+                let l = *r.pick(&lens);
+                push_hdr(&mut b, if k == 0 { d } else { 0 }, l);
+                b.extend(r.bytes(l));
+            }
+        }
+        if r.chance(1, 2) {
+            b.push(0xFF);
+            let n = r.range(1, 5) as usize;
+            b.extend(r.bytes(n));
+        }
+        ev_from_bytes(&mut out, &b);
     }
     // (b) random strings
     for _ in 0..(if thorough { 20000 } else { 2000 }) {
